@@ -344,6 +344,26 @@ def end_to_end(ctx, ok):
             else:
                 k = rng.randrange(max(1, allocs))
                 lines.append(f"feeds {data.hex()} {ample} {chunk} {k}"); meta.append((label, data, ample, k, peak))
+    # a caller that repeats a refused feed_bytes call: what the image holds after feeding is charged,
+    # however it got there (group byte buffers carry their handle for their lifetime). `held` of a run
+    # whose every call was accepted in the end must be that of the clean run.
+    rl, rmeta = [], []
+    for (label, data) in streams:
+        if label.startswith("hostile"):
+            continue
+        chunk = rng.choice([64, 333, 4096, max(1, len(data) // 3), len(data)])
+        if len(data) > 20000 and chunk < 4096:
+            chunk = 4096
+        rl.append(f"retry {data.hex()} {ample} {chunk}"); rmeta.append((label, data, chunk))
+    held_clean = {}
+    for (label, data, chunk), o in zip(rmeta, run_lines_robust([ctx.harness_bin("c13e")], rl, per_line_timeout=180, batch=20)):
+        m = re.search(r" held=(\d+) accepted=1$", o or "")
+        if m and (o or "").startswith("ok "):
+            held_clean[(data, chunk)] = int(m.group(1))
+    for (data, chunk), h in held_clean.items():
+        label = next(l for l, d in streams if d == data)
+        for l in sorted({max(0, h - 1), h // 2, (3 * h) // 4} | {rng.randint(0, max(1, h)) for _ in range(4 if ctx.quick else 30)}):
+            lines.append(f"retry {data.hex()} {l} {chunk}"); meta.append((label, data, l, None, chunk))
     outs = run_lines_robust([ctx.harness_bin("c13e")], lines, per_line_timeout=180, batch=50)
     for (label, data, limit, k, peak), ln, o in zip(meta, lines, outs):
         o = o or "crash"
@@ -366,5 +386,15 @@ def end_to_end(ctx, ok):
             ctx.violation("tracked-total-exceeded-limit", f"peak {pk} > limit {limit}", replay, key="c13e:peak")
         elif outst != 0 or left != limit:
             ctx.violation("budget-not-restored-after-drop", f"left {left} of {limit}, outstanding {outst}", replay, key="c13e:leak")
+        elif opw[0] == "retry":
+            ctx.count("e2e:retry-after-refused-feed")
+            mh = re.search(r" held=(\d+) accepted=(\d)$", o)
+            want = held_clean.get((data, peak))        # for retry lines the last field of meta is the chunk size
+            if mh and mh.group(2) == "1" and want is not None:
+                ctx.count("e2e:retry-all-calls-accepted")
+                if int(mh.group(1)) != want:
+                    ctx.violation("held-memory-not-charged-after-a-retried-feed",
+                                  f"every feed_bytes call was accepted in the end (limit {limit}) but the image holds {mh.group(1)} tracked "
+                                  f"bytes; the same feeding without a refusal holds {want}", replay, key="c13e:held-uncharged")
         elif k is None and limit >= ample and not outcome.startswith("ok") and label in ("fixture", "encoder", "vardct"):
             ctx.violation("valid-image-failed-under-ample-limit", outcome, replay, key="c13e:ample")
